@@ -512,7 +512,9 @@ func init() {
 		r.importing = "C04"
 		checkMatchDispatch(r, prog, a, "c04")
 		r.importing = "C18"
-		checkOptionConstructors(r, prog, "c18") // the unknown value set is the value given: WithUnknownValue stores its argument unconditionally
+		checkOptionConstructors(r, prog, "c18")   // the unknown value set is the value given: WithUnknownValue stores its argument unconditionally
+		checkEvaluatorPipeline(r, prog, a, "c18") // … and it is carried from creation to every evaluation (not through memory the caller still owns)
+		checkForwarding(r, prog, a, "c18")
 		r.importing = ""
 		r.Technique = "constant-table extraction (disposition switch) against the documented table; path-sensitive symbolic execution of the value lookup with the map-parent helper inlined and a struct-field memory model (gateway Config provenance); abstract execution of both consumers under {absent, lookup error}"
 		r.Explain = "Decides: the disposition table equals the documented one and is exhaustive; in the value lookup, not-present is returned only with a nil error and only on {lookup error is ErrNotFound (tested on the error of the final path), no unknown value, ≥2 parts, parent looked up with the same tag name/hook and all but the last part, parent kind is Map}; with an unknown value configured an ErrNotFound resolves to exactly that value before the parent is consulted; any other error is returned as an error; the unknown value is read nowhere else; both consumers return the disposition (match) / Op==ALL (quantifier) with a nil error and without consulting matcher or body. NOT decided: which lookups pointerstructure classifies as ErrNotFound."
